@@ -293,7 +293,9 @@ PoolC14 == <<
   [R0 EXCEPT !.body = B("/p")], [R0 EXCEPT !.body = B("a=1"), !.exc = TRUE], [RP("A") EXCEPT !.dom = {"x.com"}]
 >>
 QueryShapes == {"", "?", "?a=1", "?a=", "?a", "?=1", "?a=1&b=2", "?b=2&a=1", "?a=1&a=3", "?a=x=y", "?a=1&&b=2",
-                "?&a=1", "?a=1&", "?b&a=1", "?ab=1&a=2", "?A=1", "?a=1&b=", "?c=3", "?a=%20", "?b=2&c=3&a=1"}
+                "?&a=1", "?a=1&", "?b&a=1", "?ab=1&a=2", "?A=1", "?a=1&b=", "?c=3", "?a=%20", "?b=2&c=3&a=1",
+                \* non-ASCII keys and values, an encoded '&' inside a value, ';' is not a separator
+                "?a=é&b=2", "?é=1&a=1", "?a=1%26b=2&b=3", "?a=1;b=2"}
 FragShapes == {"", "#f", "#f?a=1", "#", "#a=1&b=2"}
 \* the URL text may be spelled in a non-normalised way (upper-case scheme); the rewrite must keep it
 MkReqU(schemeText, scheme, host, path, alias, src) ==
